@@ -171,16 +171,19 @@ def gen_roots(rng, deg, domain, allow_complex=True):
         if kind == 'zero':
             r, n = (Fraction(0), Fraction(0)), 1
         elif kind == 'repeat' and left >= 2:
-            r, n = (rand_rat(rng), Fraction(0)), rng.randint(2, min(3, left))
+            r, n = (rand_rat(rng), Fraction(0)), rng.randint(2, min(5, left))
         elif kind == 'pairrepeat' and left >= 3 and allow_complex:
-            # a conjugate pair with a repeated member: multiplicities (2, 2) or (2, 1)
+            # a conjugate pair with repeated members: equal or UNEQUAL multiplicities, either member first
             a, b = rand_rat(rng, -2, 2), rand_rat(rng, 1, 2, (1,))
-            n2 = 2 if left >= 4 and rng.random() < 0.6 else 1
-            for rr_, nn in (((a, b), 2), ((a, -b), n2)):
+            opts = [(m1, m2) for m1 in (1, 2, 3) for m2 in (1, 2, 3) if m1 + m2 <= left and m1 + m2 >= 3]
+            m1, m2 = rng.choice(opts)
+            if rng.random() < 0.5:
+                b = -b
+            for rr_, nn in (((a, b), m1), ((a, -b), m2)):
                 if domain in ('jw', 'jf'):
                     rr_ = cmul(rr_, (Fraction(0), Fraction(-1)))
                 roots.append((rr_, nn))
-            left -= 2 + n2
+            left -= m1 + m2
             continue
         elif kind == 'pair' and left >= 2 and allow_complex:
             a, b = rand_rat(rng, -3, 3), rand_rat(rng, 1, 3, (1, 2))
@@ -208,8 +211,10 @@ def gen_roots(rng, deg, domain, allow_complex=True):
 def gen_case(rng, idx):
     domain = ['s', 's', 's', 'z', 'jw', 'jf'][idx % 6]
     kind = ['roots', 'coeffs', 'roots', 'symbolic', 'roots', 'shared'][(idx // 6) % 6]
-    degA = rng.choice([0, 1, 1, 2, 2, 2, 3, 3, 4])
+    degA = rng.choice([0, 1, 1, 2, 2, 2, 3, 3, 4, 4, 5])
     degB = rng.choice([0, 0, 1, 1, 2, 2, 3, 4])
+    if idx % 7 == 3 and kind != 'symbolic':
+        kind = 'highmult'
     case = {'domain': domain, 'kind': kind, 'symvals': None}
     lcA = (rand_rat(rng, -4, 4, (1, 2), nz=True), Fraction(0))
     lcB = (rand_rat(rng, -6, 6, (1, 3), nz=True), Fraction(0))
@@ -240,8 +245,28 @@ def gen_case(rng, idx):
         A = poly_from_roots(lcA, rootsA)
         B = poly_from_roots(lcB, rootsB)
     else:
-        rootsA = gen_roots(rng, degA, domain)
-        if kind == 'coeffs':
+        if kind == 'highmult':
+            # one pole of multiplicity 4 or 5 (real or Gaussian), optionally one more simple pole; the numerator
+            # has degree 3..4 and generic coefficients, so that every derivative term of the residues is non-zero
+            r = (rand_rat(rng, -3, 3), Fraction(0) if rng.random() < 0.6 else rand_rat(rng, -2, 2, (1,), nz=True))
+            if domain in ('jw', 'jf'):
+                r = cmul(r, (Fraction(0), Fraction(-1)))
+            rootsA = [(r, rng.choice([4, 4, 5]))]
+            if rng.random() < 0.5:
+                q = (rand_rat(rng, -4, 4), Fraction(0))
+                if q != r:
+                    rootsA.append((q, 1))
+            degB = rng.choice([3, 3, 4])
+        else:
+            rootsA = gen_roots(rng, degA, domain)
+        if kind == 'highmult':
+            B = [(rand_rat(rng, -6, 6, (1, 2)), Fraction(0)) for _ in range(degB + 1)]
+            if B[-1] == (0, 0):
+                B[-1] = (Fraction(1), Fraction(0))
+            if B[0] == (0, 0):
+                B[0] = (Fraction(2), Fraction(0))
+            rootsB = None
+        elif kind == 'coeffs':
             degB = min(degB, 2)
             B = [(rand_rat(rng, -6, 6, (1, 2)), Fraction(0) if domain in ('s', 'z') or rng.random() < 0.5 else rand_rat(rng, -3, 3)) for _ in range(degB + 1)]
             if B[-1] == (0, 0):
@@ -347,10 +372,14 @@ def formats(H, v):
         ('mixedfrac', lambda: H.mixedfrac(), 'standard'),
         ('partfrac', lambda: H.partfrac(), None),
         ('partfrac_ec', lambda: H.partfrac(method='ec'), None),
+        ('partfrac_sub', lambda: H.partfrac(method='sub'), None),
         ('partfrac_pairs', lambda: H.partfrac(combine_conjugates=True), None),
+        ('partfrac_pairs_opt', lambda: H.partfrac(pairs=True), None),
+        ('partfrac_pairs_ec', lambda: H.partfrac(pairs=True, method='ec'), None),
         ('recippartfrac', lambda: H.recippartfrac(), None),
         ('ZPK', lambda: H.ZPK(), None),
         ('ZPK_pairs', lambda: H.ZPK(pairs=True), None),
+        ('ZPK_combine_conjugates', lambda: H.ZPK(combine_conjugates=True), None),
         ('factored', lambda: H.factored(), None),
         ('factored_pairs', lambda: H.factored(pairs=True), None),
         ('timeconst', lambda: H.timeconst(), 'timeconst'),
@@ -581,6 +610,59 @@ class Runner:
                 self.pf_checks(case, H, pts, Bt, At, tt, hl)
             if r[0] == 'true':
                 setattr(self, '_tab_' + nm, tt)
+        # poles(pairs=True) / zeros(pairs=True): pairs expanded + singles must factorise the polynomial
+        for nm, fn, poly in (('poles(pairs)', lambda: H.poles(pairs=True), At), ('zeros(pairs)', lambda: H.zeros(pairs=True), Bt)):
+            if all(c == '0' for c in poly):
+                continue
+            d, err = L_.timed(fn, self.tlimit)
+            if err:
+                chk.count('lcapy-error', '%s:%s' % (nm, err))
+                continue
+            try:
+                pairs_, singles_ = d
+                allr = {}
+                for k_, n_ in pairs_.items():
+                    for member in k_:
+                        allr[member] = allr.get(member, 0) + int(S.sympify(n_.sympy if hasattr(n_, 'sympy') else n_))
+                for k_, n_ in singles_.items():
+                    allr[k_] = allr.get(k_, 0) + int(S.sympify(n_.sympy if hasattr(n_, 'sympy') else n_))
+                tt = table_tokens(L_, allr, case)
+            except Unevaluable:
+                chk.count('degenerate', 'surd-roots:%s' % nm)
+                continue
+            except Exception as e_:   # noqa
+                chk.count('degenerate', 'roots-shape:%s:%s' % (nm, type(e_).__name__))
+                continue
+            r = self.ask('poly.rootscheck | %s | %s' % (' '.join(poly), tt)).split()
+            chk.count('data', nm)
+            if r[0] != 'true' or r[1] != r[2]:
+                self.cex(case, {'kind': 'data', 'method': nm},
+                         {'polynomial(low first)': poly, 'reported(pairs expanded + singles)': tt, 'rootsCheck': r[0],
+                          'sum_of_multiplicities': r[1], 'degree': r[2], 'lcapy': str(d)[:300]},
+                         '%s: reported conjugate pairs and single roots do not factorise the polynomial' % nm)
+        # as_QRF (with and without pairs): Q + sum R/F times delay and undefined factors is the expression
+        for nm, fn in (('as_QRF', lambda: H.as_QRF()), ('as_QRF(pairs)', lambda: H.as_QRF(pairs=True)),
+                       ('as_QRF(ec)', lambda: H.as_QRF(method='ec'))):
+            q, err = L_.timed(fn, self.tlimit)
+            if err:
+                chk.count('lcapy-error', '%s:%s' % (nm, err))
+                continue
+            try:
+                v_ = L_.VAR[case['domain']]
+                e_ = S.sympify(q[0]) + sum(S.sympify(r_) / S.sympify(f_) for r_, f_ in zip(q[1], q[2]))
+                e_ = e_ * S.exp(-S.sympify(q[3]) * v_) * S.sympify(q[4])
+                chk.count('data', nm)
+                for (pt, sv) in pts:
+                    got = L_.evalat(e_, case, pt)
+                    if self.ask('rf.same %s %s | %s' % (h, ptstr(pt), got)) != 'true':
+                        self.cex(case, {'kind': 'data', 'method': nm},
+                                 {'lcapy': str(q)[:400], 'point': ptstr(pt), 'value_of_decomposition': got, 'spec_value': sv},
+                                 '%s: (Q + sum R/F) exp(-delay var) undef is not the expression' % nm)
+                        break
+            except Unevaluable:
+                chk.count('degenerate', 'unevaluable:%s' % nm)
+            except Exception as e2_:   # noqa
+                chk.count('degenerate', '%s:%s' % (nm, type(e2_).__name__))
         # ZPK through the model with Lcapy's own root tables (root finding is an input, checked above)
         zpk, err = L_.timed(lambda: H._as_ZPK(), self.tlimit)
         if not err and zpk[0] is not None and not all(c == '0' for c in Bt):
